@@ -118,11 +118,15 @@ prop(
     bounds="1 condition, 1 waiter (one wait call), 3 status kinds (mask bits 0, 8, 12) and all 8 masks over them; trigger value: k = 3 "
            "(quick) / 4 and 5 (thorough) worker operations from the default condition; wake-ups: 4 waiter steps + symbolic initial mask + 1 "
            "symbolic worker operation in one of the slots (quick: between G and R, between R and the first poll, between the polls; "
-           "thorough: also before G) / 2 worker operations in two slots (thorough: placements 1001, 0101, 1100, 0011); unwind 14 (13-iteration mask loop of DcpsStatusCondition::default()).",
+           "thorough: also before G, and 2 worker operations before the registration: placement 1100); the enabling scenario has 3 "
+           "worker operations of fixed kind (set_enabled, add, set_enabled) with symbolic operands (quick: waiter parked; thorough: "
+           "parked or not, symbolic); unwind 14 (13-iteration mask loop of DcpsStatusCondition::default()).",
     outside="a free symbolic schedule of worker and waiter steps (measured: 3 free steps, and one worker slot in each of the four gaps, "
             "both exceed 11 GB / 600 s: once the length of registered_notifications is symbolic CBMC unrolls the drain loop of "
             "add_communication_state 13 times, the unwind bound forced by the 13-status loop of Default) - hence the slot-structured "
-            "schedules; more than 2 worker operations during one wait call; two or more concurrent waiters or wait sets with several "
+            "schedules; more than 1 symbolic worker operation after the waiter registered (measured on the repaired tree: two worker slots with one "
+            "after the registration - placements 1001, 0101, 0011 - exceed 11 GB / 1500 s, because set_enabled_statuses now has the same "
+            "drain-and-notify loop); two or more concurrent waiters or wait sets with several "
             "conditions (the original sender kept alive by wait() and the per-condition clones are modelled for one condition); the "
             "async glue of WaitSetAsync::wait / StatusConditionAsync (mail to the participant actor, oneshot reply) and the lookup "
             "code of status_condition_methods.rs, which are mirrored, not executed; the timeout of the blocking WaitSet::wait "
